@@ -674,6 +674,27 @@ func flowsFrom(v ssa.Value, src func(ssa.Value) bool) bool {
 					return true
 				}
 			}
+		case *ssa.Extract:
+			// result k of a same-package helper: follow that result only
+			if call, ok := x.Tuple.(*ssa.Call); ok {
+				if cal := call.Call.StaticCallee(); cal != nil && len(cal.Blocks) > 0 && call.Parent() != nil && cal.Pkg == call.Parent().Pkg && len(seen) < 4000 {
+					seen[call] = true
+					for _, a := range call.Call.Args {
+						if rec(a) {
+							return true
+						}
+					}
+					for _, b := range cal.Blocks {
+						if ret, ok := b.Instrs[len(b.Instrs)-1].(*ssa.Return); ok && x.Index < len(ret.Results) {
+							if rec(ret.Results[x.Index]) {
+								return true
+							}
+						}
+					}
+					return false
+				}
+			}
+			return rec(x.Tuple)
 		case *ssa.Call:
 			for _, a := range x.Call.Args {
 				if rec(a) {
@@ -682,6 +703,18 @@ func flowsFrom(v ssa.Value, src func(ssa.Value) bool) bool {
 			}
 			if x.Call.IsInvoke() || x.Call.StaticCallee() == nil {
 				return rec(x.Call.Value)
+			}
+			// a helper of the same package: what it returns also contributes
+			if cal := x.Call.StaticCallee(); cal != nil && len(cal.Blocks) > 0 && x.Parent() != nil && cal.Pkg == x.Parent().Pkg && len(seen) < 4000 {
+				for _, b := range cal.Blocks {
+					if ret, ok := b.Instrs[len(b.Instrs)-1].(*ssa.Return); ok {
+						for _, r := range ret.Results {
+							if rec(r) {
+								return true
+							}
+						}
+					}
+				}
 			}
 		case ssa.Instruction:
 			for _, op := range x.Operands(nil) {
@@ -800,4 +833,115 @@ func intSize(t types.Type) int {
 		return 32 // conservative lower bound
 	}
 	return 0
+}
+
+// returnedClosure: the function literal that a constructor returns (possibly
+// converted to a named func type), however many other closures it defines.
+func returnedClosure(outer *ssa.Function) *ssa.Function {
+	if outer == nil {
+		return nil
+	}
+	var out *ssa.Function
+	n := 0
+	eachInstr(outer, func(i ssa.Instruction) {
+		if r, ok := i.(*ssa.Return); ok && len(r.Results) >= 1 {
+			if cl := closureOf(resolveOnceV(r.Results[0])); cl != nil && cl.Parent() == outer {
+				if out != cl {
+					n++
+				}
+				out = cl
+			}
+		}
+	})
+	if n != 1 {
+		return nil
+	}
+	return out
+}
+
+// resolveOnceV is resolveOnce for values that may be closures stored in a local first.
+func resolveOnceV(v ssa.Value) ssa.Value {
+	v = strip(v)
+	if closureOf(v) != nil {
+		return v
+	}
+	return strip(resolveOnce(v))
+}
+
+// region returns fn, its nested closures, and the same-package functions it
+// statically calls (transitively) — the code a maintainer may have spread a
+// formerly single function over by extracting helpers.
+func region(fn *ssa.Function) []*ssa.Function {
+	seen := map[*ssa.Function]bool{}
+	var out []*ssa.Function
+	var visit func(f *ssa.Function)
+	visit = func(f *ssa.Function) {
+		if f == nil || seen[f] || len(f.Blocks) == 0 || f.Pkg != fn.Pkg {
+			return
+		}
+		seen[f] = true
+		out = append(out, f)
+		eachInstr(f, func(i ssa.Instruction) {
+			if ci, ok := i.(ssa.CallInstruction); ok {
+				if cal := ci.Common().StaticCallee(); cal != nil {
+					visit(cal)
+				}
+			}
+			if mc, ok := i.(*ssa.MakeClosure); ok {
+				if cf, ok := mc.Fn.(*ssa.Function); ok {
+					visit(cf)
+				}
+			}
+		})
+	}
+	visit(fn)
+	return out
+}
+
+// isFreshSlice: v is a newly allocated slice that shares no backing array with
+// anything else: make, append onto nil / onto a fresh slice, slices.Clone.
+func isFreshSlice(v ssa.Value) bool {
+	switch x := v.(type) {
+	case *ssa.MakeSlice:
+		return true
+	case *ssa.Call:
+		switch callName(&x.Call) {
+		case "slices.Clone", "bytes.Clone":
+			return true
+		case "builtin:append":
+			if k, ok := x.Call.Args[0].(*ssa.Const); ok && k.Value == nil {
+				return true
+			}
+			return isFreshSlice(x.Call.Args[0])
+		}
+	case *ssa.Slice:
+		// make(...)[:0]
+		if x.Low == nil {
+			return isFreshSlice(x.X)
+		}
+	case *ssa.Phi:
+		for _, e := range x.Edges {
+			if !isFreshSlice(e) {
+				return false
+			}
+		}
+		return len(x.Edges) > 0
+	}
+	return false
+}
+
+// branchOn returns the blocks entered when boolean v is true / false, looking
+// through a negation (`if !v`) and short-circuit φs.
+func branchOn(v ssa.Value) (onTrue, onFalse *ssa.BasicBlock, ifi *ssa.If) {
+	if i := trueImpliesIf(v); i != nil {
+		return i.Block().Succs[0], i.Block().Succs[1], i
+	}
+	for _, r := range refs(v) {
+		if u, ok := r.(*ssa.UnOp); ok && u.Op == token.NOT {
+			if i := trueImpliesIf(u); i != nil {
+				return i.Block().Succs[1], i.Block().Succs[0], i
+			}
+		}
+	}
+	return nil, nil, nil
 }
